@@ -27,6 +27,9 @@ type Expr struct {
 	Fn   string
 	Args []Expr
 	Raw  bool // built as a raw []interface{}{fn, args...} list instead of qframe.Expr
+	// Wrap hands a constant/column operand over as an Expression object (qframe.Val(x))
+	// instead of the bare value.
+	Wrap bool
 }
 
 func (e Expr) String() string {
@@ -45,6 +48,9 @@ func (e Expr) String() string {
 		}
 		return strconv.Quote(*e.CS)
 	case "col":
+		if e.Wrap {
+			return "Val($" + e.Col + ")"
+		}
 		return "$" + e.Col
 	case "bad":
 		return "<bad:" + e.Fn + ">"
@@ -84,6 +90,11 @@ func (e Expr) MaxArity() int {
 }
 
 func (e Expr) rawValue() interface{} {
+	if e.Wrap && (e.Op == "const" || e.Op == "col") {
+		u := e
+		u.Wrap = false
+		return qframe.Val(u.rawValue())
+	}
 	switch e.Op {
 	case "const":
 		switch e.CK {
@@ -475,10 +486,11 @@ func resultSortOfUnary(name string, arg Kind, custom bool) Kind {
 func GenExprOfKind(t *rapid.T, tab Table, want Kind, depth int, custom bool) Expr {
 	leaf := func() Expr {
 		cols := colsOfKind(tab, want)
+		wrap := rapid.IntRange(0, 3).Draw(t, "wrapval") == 0
 		if len(cols) > 0 && (want == KEnum || rapid.IntRange(0, 2).Draw(t, "leafcol") > 0) {
-			return Expr{Op: "col", Col: cols[rapid.IntRange(0, len(cols)-1).Draw(t, "col")].Name}
+			return Expr{Op: "col", Col: cols[rapid.IntRange(0, len(cols)-1).Draw(t, "col")].Name, Wrap: wrap}
 		}
-		e := Expr{Op: "const", CK: want}
+		e := Expr{Op: "const", CK: want, Wrap: wrap}
 		switch want {
 		case KInt:
 			e.CI = GenInt(t)
